@@ -73,6 +73,45 @@ func runC32(c *Ctx) {
 		body := &ast.FuncLit{Type: &ast.FuncType{}, Body: rng.Body}
 		lf := c.NewLitFlow("allocateActors$body", info, body)
 		lv := info.ObjectOf(rng.Value.(*ast.Ident))
+		// roles: the three results by position; best = the index local initialised to -1 inside the loop body;
+		// loads = the []int local built with make
+		results := fn.Obj.Type().(*types.Signature).Results()
+		resultRole := map[types.Object]string{}
+		for i, r := range []string{"leaderShares", "peersShares", "unplaceable"} {
+			if results.Len() == 3 {
+				resultRole[results.At(i)] = r
+			}
+		}
+		var bestObj, loadsObj types.Object
+		ast.Inspect(fn.Decl.Body, func(n ast.Node) bool {
+			as, ok := n.(*ast.AssignStmt)
+			if !ok || as.Tok != token.DEFINE || len(as.Lhs) != 1 || len(as.Rhs) != 1 {
+				return true
+			}
+			o := info.ObjectOf(as.Lhs[0].(*ast.Ident))
+			if v, isC := constInt(info, as.Rhs[0]); isC && v == -1 && as.Pos() >= rng.Body.Pos() && as.End() <= rng.Body.End() {
+				bestObj = o
+			}
+			if call, ok := as.Rhs[0].(*ast.CallExpr); ok {
+				if id, ok := call.Fun.(*ast.Ident); ok && id.Name == "make" {
+					if sl, ok := o.Type().Underlying().(*types.Slice); ok {
+						if b, ok := sl.Elem().Underlying().(*types.Basic); ok && b.Kind() == types.Int {
+							loadsObj = o
+						}
+					}
+				}
+			}
+			return true
+		})
+		isRole := func(o types.Object, name string) bool {
+			switch name {
+			case "best":
+				return o != nil && o == bestObj
+			case "loads":
+				return o != nil && o == loadsObj
+			}
+			return o != nil && resultRole[o] == name
+		}
 		dstNamed := func(name string) Match {
 			return func(n ast.Node) bool {
 				d, ok := appendOf(info, n, lv)
@@ -83,13 +122,13 @@ func runC32(c *Ctx) {
 					d = ix.X
 				}
 				o := objOf(info, d)
-				return o != nil && o.Name() == name
+				return isRole(o, name)
 			}
 		}
 		none := lf.EdgesWhere(func(cond ast.Expr) (bool, bool) {
 			cm, ok := asCmp(cond, true)
 			if ok && cm.Op == token.EQL {
-				if o := objOf(info, cm.L); o != nil && o.Name() == "best" {
+				if isRole(objOf(info, cm.L), "best") {
 					if v, isC := constInt(info, cm.R); isC && v == -1 {
 						return true, true
 					}
@@ -100,7 +139,7 @@ func runC32(c *Ctx) {
 		found := lf.EdgesWhere(func(cond ast.Expr) (bool, bool) {
 			cm, ok := asCmp(cond, true)
 			if ok && cm.Op == token.EQL {
-				if o := objOf(info, cm.L); o != nil && o.Name() == "best" {
+				if isRole(objOf(info, cm.L), "best") {
 					if v, isC := constInt(info, cm.R); isC && v == -1 {
 						return true, false
 					}
@@ -126,8 +165,7 @@ func runC32(c *Ctx) {
 			if !ok || len(as.Lhs) != 1 || as.Tok != token.ASSIGN {
 				return false
 			}
-			o := objOf(info, as.Lhs[0])
-			return o != nil && o.Name() == "best"
+			return isRole(objOf(info, as.Lhs[0]), "best")
 		}
 		w = lf.search(searchSpec{avoidEdges: elig, target: assignBest})
 		c.Check(w == nil && len(elig) > 0 && len(lf.Find(assignBest)) == 1, "allocateActors/eligible-only", "a target is selected only after eligibleForRole accepted it for the actor's role", c.P.Pos(rng.Pos()), lf.describe(w))
@@ -138,10 +176,8 @@ func runC32(c *Ctx) {
 				l, lok := be.X.(*ast.IndexExpr)
 				r, rok := be.Y.(*ast.IndexExpr)
 				if lok && rok {
-					if o := objOf(info, l.X); o != nil && o.Name() == "loads" {
-						if o2 := objOf(info, r.Index); o2 != nil && o2.Name() == "best" {
-							strict = true
-						}
+					if isRole(objOf(info, l.X), "loads") && isRole(objOf(info, r.X), "loads") && isRole(objOf(info, r.Index), "best") {
+						strict = true
 					}
 				}
 			}
@@ -157,8 +193,7 @@ func runC32(c *Ctx) {
 			if !ok {
 				return false
 			}
-			o := objOf(info, ix.X)
-			return o != nil && o.Name() == "loads"
+			return isRole(objOf(info, ix.X), "loads")
 		}
 		w = lf.MustFollow(lf.Find(dstNamed("peersShares")), inc, nil)
 		c.Check(w == nil && len(lf.Find(dstNamed("peersShares"))) == 1, "allocateActors/load-accounted", "placing an actor increments the chosen target's load", c.P.Pos(rng.Pos()), lf.describe(w))
@@ -345,9 +380,21 @@ func runC32(c *Ctx) {
 		rl := c.Func("actor", "relocationWorker.relocate")
 		rinfo := rl.Info()
 		rec := false
+		// the third result of allocateActors (the actors nobody is eligible to host)
+		unplaceableVars := map[types.Object]bool{}
+		ast.Inspect(rl.Decl.Body, func(n ast.Node) bool {
+			if as, ok := n.(*ast.AssignStmt); ok && len(as.Lhs) == 3 && len(as.Rhs) == 1 {
+				if call, ok := as.Rhs[0].(*ast.CallExpr); ok && callee(rinfo, call) == c.FuncObj("actor", "allocateActors") {
+					if o := objOf(rinfo, as.Lhs[2]); o != nil {
+						unplaceableVars[o] = true
+					}
+				}
+			}
+			return true
+		})
 		ast.Inspect(rl.Decl.Body, func(n ast.Node) bool {
 			if r, ok := n.(*ast.RangeStmt); ok {
-				if o := objOf(rinfo, r.X); o != nil && o.Name() == "unplaceableActors" {
+				if o := objOf(rinfo, r.X); o != nil && unplaceableVars[o] {
 					ast.Inspect(r.Body, func(m ast.Node) bool {
 						if call, ok := m.(*ast.CallExpr); ok {
 							if cal := callee(rinfo, call); cal != nil && cal.Name() == "record" {
